@@ -326,6 +326,23 @@ fn offsets_years_margin(start_offset: &ds::DateOffset, end_offset: &ds::DateOffs
     (max_days.saturating_add(364) / 365).clamp(0, 10_000) as i32
 }
 
+/// A bound on a day of February that only exists on leap years may not occur for up to eight
+/// years (eg. from 2096 to 2104), in which case more years have to be considered around a date.
+fn leap_years_margin(start: &ds::Date, end: &ds::Date) -> i32 {
+    let only_on_leap_years = |date: &ds::Date| {
+        matches!(
+            date,
+            ds::Date::Fixed { month: Month::February, day: 29.., .. }
+        )
+    };
+
+    if only_on_leap_years(start) || only_on_leap_years(end) {
+        8
+    } else {
+        0
+    }
+}
+
 /// Check if a range between dates of the year only covers days that don't exist on given year
 /// (eg. "Feb 30" or "Apr 31-Apr 31"). Its bounds would otherwise be moved to the closest valid
 /// days, which are in reverse order and would be handled as a range wrapping to the next year.
@@ -367,7 +384,8 @@ impl DateFilter for ds::MonthdayRange {
                 end: (end, end_offset),
             } => {
                 let year = date.year();
-                let margin = offsets_years_margin(start_offset, end_offset);
+                let margin =
+                    offsets_years_margin(start_offset, end_offset) + leap_years_margin(start, end);
 
                 if start.has_year() {
                     return dated_range(&(*start, *start_offset), &(*end, *end_offset))
@@ -458,7 +476,8 @@ impl DateFilter for ds::MonthdayRange {
                 end: (end, end_offset),
             } => {
                 let year = date.year();
-                let margin = offsets_years_margin(start_offset, end_offset);
+                let margin =
+                    offsets_years_margin(start_offset, end_offset) + leap_years_margin(start, end);
 
                 if end.has_year() {
                     // The end only exists on a single year, which may be outside of the years
